@@ -382,7 +382,7 @@ def floors(tier):
     f["decided:ei_nonneg"] = 1800 * m
     f["decided:acq_value"] = 2400 * m
     f["decided:op:cholesky_factorization"] = 1400 * m
-    f["decided:op:AddJitterOp"] = 1000 * m
+    f["decided:op:AddJitterOp"] = 800 * m
     f["decided:op:chained"] = 1200 * m
     f["reach:cholesky_factorization_backward"] = 5000 * m
     f["reach:_postprocess_gradient"] = 5000 * m
